@@ -8,8 +8,8 @@
 const char *prop_id = "C11";
 
 typedef struct { int rowoff, wordoff, trailw, trailr; } plc;
-static const plc PL[] = {{1, 1, 1, 2}, {0, 2, 2, 0}, {3, 1, 1, 0}, {1, 0, 1, 2}, {0, 1, 2, 2}, {3, 3, 1, 2}};
-#define NPL 6
+static const plc PL[] = {{1, 1, 1, 2}, {0, 2, 2, 0}, {3, 1, 1, 0}, {1, 0, 1, 2}, {0, 1, 2, 2}, {3, 3, 1, 2}, {0, 0, -1, 2}};
+#define NPL 7
 
 /* poison every word of the parent allocation that lies outside the word rectangle of the view */
 static void poison_around(const vwin *w, int on) {
@@ -36,7 +36,7 @@ static void mode_ops(void) {
       for (int var = 0; var < nvar; var++) {
         int wk = var ? (var - 1) / NPL : -1, pi = var ? (var - 1) % NPL : 0;
         if (wk >= 0 && (o->nowin & (1 << wk))) continue;
-        if (!vx_tier && var && (pi >= 3) && data) continue;
+        if (!vx_tier && var && (pi >= 3 && pi != 6) && data) continue;
         if (!vx_case_begin("%s|shape=%d|data=%d|%s=%d|place=%d", o->name, si, data, wk >= 0 ? "view" : "owned", wk, pi)) continue;
         vwin w[3]; mzd_t *m[3] = {0, 0, 0}, *res = NULL;
         for (int k = 0; k < o->nmat; k++) { pm *c = op_content(o, s, k, data); w[k] = vw_make(c, k == wk, PL[pi].rowoff, PL[pi].wordoff, PL[pi].trailw, PL[pi].trailr, 1); pm_free(c); m[k] = w[k].view; }
